@@ -55,6 +55,14 @@ def matrix(ctx):
              units=dict(length_units="nm", scale=1000.0, field_units="uT", current_units="uA", fs=1000.0, cs=1.0), currents_den=1000),
         dict(label="cross/units-nm-mT-mA", dev="cross", currents={"source": 0.004, "drain": -0.002, "top": -0.001, "bottom": -0.001}, adaptive=False,
              solve_time=0.2, units=dict(length_units="nm", scale=1000.0, field_units="mT", current_units="mA", fs=1.0, cs=1.0), currents_den=1000000),
+        # holed devices whose film outline is much coarser than the mesh (points are inserted on the film edge inside the terminals),
+        # so that the boundary-edge list interleaves film and hole edges; fresh devices built in the job
+        dict(label="holed/1-hole/outline=20/2-terminals", func="holed_run", holes=1, outline=20, terminals=2, mel=0.5,
+             currents={"source": 3.0, "drain": -3.0}, field=0.3, adaptive=True, dt=2.0 ** -8, solve_time=0.06, k=3),
+        dict(label="holed/2-holes/outline=4/3-terminals", func="holed_run", holes=2, outline=4, terminals=3, mel=0.5,
+             currents={"source": 4.0, "drain": -2.0, "top": -2.0}, adaptive=True, solve_time=0.2, k=3),
+        dict(label="holed/2-holes/outline=20/3-terminals/ramped", func="holed_run", holes=2, outline=20, terminals=3, mel=0.45,
+             currents={"source": 2.0, "drain": 1.0, "top": -3.0}, current_ramp=0.05, field=0.2, adaptive=True, dt=2.0 ** -8, solve_time=0.08, k=3),
         # histories on ONE Device object: mesh, solve, re-mesh / move / rotate / reflect, solve again (fresh devices built inside the run)
         dict(label="history/tee/remesh-1.0-to-0.3", func="history_run", history="remesh", dev="tee", mel=1.0, mel2=0.3,
              currents={"source": 4.0, "drain": -2.0, "top": -2.0}, adaptive=False, solve_time=0.1, k=3),
@@ -68,6 +76,14 @@ def matrix(ctx):
              currents={"source": 4.0, "drain": -2.0, "top": -2.0}, adaptive=False, solve_time=0.15, k=3),
     ]
     if not ctx.quick:
+        for holes in (1, 2):
+            for outline in (4, 20, 101):
+                for terminals in (2, 3):
+                    for mel in (0.5, 0.35):
+                        cur = {"source": 3.0, "drain": -3.0} if terminals == 2 else {"source": 1.0, "drain": 2.0, "top": -3.0}
+                        runs.append(dict(label=f"holed/{holes}-holes/outline={outline}/{terminals}-terminals/mel={mel}", func="holed_run", holes=holes,
+                                         outline=outline, terminals=terminals, mel=mel, currents=cur, field=(0.3 if holes == 2 else 0.0),
+                                         adaptive=True, dt=2.0 ** -8, solve_time=0.06, k=3))
         runs += [
             dict(label="history/cross/reflect-and-stretch-then-mesh", func="history_run", history="reflect", dev="cross", mel=0.8, mel2=0.6,
                  currents={"source": 4.0, "drain": -2.0, "top": -1.0, "bottom": -1.0}, adaptive=True, solve_time=0.2, k=3),
@@ -149,6 +165,13 @@ def run(ctx):
     res = rf.replay_all(ctx, jobs)
     ctor_traces = [t for chunk in res[:6] for t in chunk]
     run_traces = res[6:]
+    skipped = [a["label"] for a, t in zip(runs, run_traces) if t.get("skipped")]
+    holed = [a["label"] for a, t in zip(runs, run_traces) if a.get("func") == "holed_run" and not t.get("skipped")]
+    ctx.cov["holed_coarse_outline_runs"] = {"built": len(holed), "skipped_mesh_refused": skipped}
+    if len(holed) < 2:
+        raise core.MachineryFailure(f"C01: fewer than 2 holed coarse-outline devices could be meshed (skipped {skipped})")
+    keep = [n for n, t in enumerate(run_traces) if not t.get("skipped")]
+    runs, run_traces = [runs[n] for n in keep], [run_traces[n] for n in keep]
     for t in ctor_traces:
         ctx.note_case(("ctor", json.dumps(t["currents"], sort_keys=True)), nontrivial=any(t["ev"][0]["nums"]))
     for a, t in zip(runs, run_traces):
